@@ -65,7 +65,9 @@ def generate(unit, repo=None):
     parts = ["// GENERATED on every run by /verif/engine from " + repo + " -- do not edit\n#![allow(unused)]\nuse vstd::prelude::*;\nverus! {\n"]
     for p in unit.prelude:
         parts.append(f"// ---- prelude {p} ----\n" + read(os.path.join(VERUS_DIR, p)) + "\n")
-    parts.append(f"// ---- spec of unit {unit.name} ----\n" + unit.spec + "\n")
+    # a unit's spec text may depend on the real source (e.g. extra atomic fields of the real struct): callable(repo) -> text
+    spec_text = unit.spec(repo) if callable(unit.spec) else unit.spec
+    parts.append(f"// ---- spec of unit {unit.name} ----\n" + spec_text + "\n")
     lemmas = list(unit.lemmas)
     if unit.generated:
         gtext, glemmas = unit.generated(repo, log)
